@@ -157,7 +157,18 @@ fn observe_batch(tree: &mut MerkleTree, prof: Prof, leaves: &[Vec<u8>], distinct
     let r = guarded(|| {
         for l in leaves { tree.push_leaf(l); }
         let root = tree.compute_root();
-        let paths: Vec<Vec<u8>> = (0..n).map(|i| tree.get_paths(i)).collect();
+        // PathOf is a function of the tree's state: the ORDER in which positions are asked (ascending as the server does,
+        // descending, odd positions first, shuffled) and asking again must not matter
+        let mut order: Vec<usize> = (0..n).collect();
+        match rng.below(4) {
+            0 => {}
+            1 => order.reverse(),
+            2 => { order = (0..n).filter(|i| i % 2 == 1).chain((0..n).filter(|i| i % 2 == 0)).collect(); }
+            _ => { for i in 0..n { let j = i + rng.below((n - i) as u64) as usize; order.swap(i, j); } }
+        }
+        let mut paths: Vec<Vec<u8>> = vec![Vec::new(); n];
+        for i in order { paths[i] = tree.get_paths(i); }
+        for _ in 0..n.min(4) { let i = rng.below(n as u64) as usize; let again = tree.get_paths(i); if again != paths[i] { paths[i] = again; } }
         (root, paths)
     });
     let (root, paths) = match r {
